@@ -264,8 +264,8 @@ class Gen:
             lets.append((x, self.expr(r.range(1, self.depth), vars_, funs, False)))
             vars_.append(x)
         outs = [self.expr(r.range(1, self.depth), vars_, funs, False) for _ in range(r.choice([1, 1, 2, 2, 3]))]
-        if len(outs) >= 2 and not r.chance(1, 10):
-            # an `if` inside a tuple literal is finding F13: bind such outputs with a let first (most of the time)
+        if len(outs) >= 2 and r.chance(1, 2):
+            # (an `if` inside a tuple literal used to be finding F13, now repaired) half of the time bind such outputs with a let
             for i, o in enumerate(outs):
                 if any(s_[0] == 'if' for s_ in subexprs(o)):
                     x = self.fresh()
@@ -457,7 +457,6 @@ def build_sides(ck):
 def classes_of(p):
     c = set()
     if multi_delay_sizes(p): c.add("F3")
-    if if_in_tuple(p): c.add("F13")
     return c
 
 
